@@ -353,7 +353,9 @@ func init() {
 			"NOT decided (no static argument in reach): that no two conflicting blocks are finalised under every interleaving, delay, loss and Byzantine behaviour — this needs the protocol-level argument (vote-selection rules across rounds, completability, GHOST) which quantifies over executions; the checks above only guarantee that no code path finalises without the supermajority gate the safety argument rests on.",
 		"signature verification, ancestry queries and the honest-supermajority assumption itself", "DESIGN.md §5 (C22), §8.2 R-FINALGATE, R-STAGEMAPS",
 		func(c *Ctx) {
-			c.load(gDir, syncDir)
+			c.load(gDir, syncDir, fgDir)
+			c.rulePhaseConsistent()
+			c.min("R-PHASECONSIST", 3)
 			c.ruleFinalGateCallers()
 			c.min("R-FINALGATE/callers", 5)
 			c.ruleFinalGate()
